@@ -8,7 +8,13 @@ Local Open Scope N_scope.
 
 Record input := {
   i_sb : schema; i_sl : schema; i_sr : schema;     (* non-key column ids in storage order: ancestor, left branch, right branch *)
-  i_b : table; i_l : table; i_r : table }.          (* rows read back from the three commits *)
+  i_b : table; i_l : table; i_r : table;            (* rows read back from the three commits *)
+  i_cls : list (N * N) }.                           (* value class of the representations that are not their own class
+                                                       (e.g. 'AB', 'Ab', 'ab' under a case-insensitive collation) *)
+
+Fixpoint assocN (x : N) (m : list (N * N)) : option N :=
+  match m with [] => None | (k, v) :: m' => if k =? x then Some v else assocN x m' end.
+Definition clsf (m : list (N * N)) (x : N) : N := match assocN x m with Some c => c | None => x end.
 
 (* one direction of the merge as observed *)
 Record dir_obs := {
@@ -21,16 +27,16 @@ Record obs := { o_lr : dir_obs; o_rl : dir_obs }.   (* CALL dolt_merge('right') 
 
 Definition case := (input * obs)%type.
 
-Definition model_dir (sb sl sr : schema) (b l r : table) : dir_obs :=
-  let m := table_merge true sb sl sr b l r in
+Definition model_dir (cls : N -> N) (sb sl sr : schema) (b l r : table) : dir_obs :=
+  let m := table_merge_g cls true sb sl sr b l r in
   {| d_class := if m_err m then 2 else match m_conf m with [] => 0 | _ => 1 end;
      d_sm := merged_schema sb sl sr;
      d_rows := if m_err m then [] else m_rows m;
      d_conf := if m_err m then [] else m_conf m |}.
 
 Definition model_obs (i : input) : obs :=
-  {| o_lr := model_dir (i_sb i) (i_sl i) (i_sr i) (i_b i) (i_l i) (i_r i);
-     o_rl := model_dir (i_sb i) (i_sr i) (i_sl i) (i_b i) (i_r i) (i_l i) |}.
+  {| o_lr := model_dir (clsf (i_cls i)) (i_sb i) (i_sl i) (i_sr i) (i_b i) (i_l i) (i_r i);
+     o_rl := model_dir (clsf (i_cls i)) (i_sb i) (i_sr i) (i_sl i) (i_b i) (i_r i) (i_l i) |}.
 
 Fixpoint getc (k : N) (cs : list conflict_entry) : option (option row * option row * option row) :=
   match cs with [] => None | (k', e) :: cs' => if k' =? k then Some e else getc k cs' end.
@@ -62,24 +68,26 @@ Definition obs_eqb (a b : obs) : bool := dir_eqb (o_lr a) (o_lr b) && dir_eqb (o
 
 (* The property on one direction, as a predicate on what dolt returned:
    the merge did not fail internally; the merged table has the merged columns; for every key the
-   merged row is the three-way merge of the three versions and a conflict (base, ours, theirs) is
-   recorded exactly when the declarative merge says so. *)
-Definition dir_ok (sb sl sr : schema) (b l r : table) (o : dir_obs) : bool :=
+   merged row is the three-way merge of the three versions (as values: up to representation) and a
+   conflict (base, ours, theirs) is recorded exactly when the declarative merge says so.  Which of two
+   equal-valued representations the merged cell carries is constrained by swap_ok below. *)
+Definition dir_ok (cls : N -> N) (sb sl sr : schema) (b l r : table) (o : dir_obs) : bool :=
   negb (d_class o =? 2)
   && same_cols (merged_schema sb sl sr) (d_sm o)
   && (d_class o =? match d_conf o with [] => 0 | _ => 1 end)
   && forallb (fun k =>
-       let '(v, c) := spec_row sb sl sr (get k b) (get k l) (get k r) in
-       orow_agree (merged_schema sb sl sr) v (d_sm o) (get k (d_rows o))
+       let '(v, c) := spec_row_g cls sb sl sr (get k b) (get k l) (get k r) in
+       orow_agree_v cls (merged_schema sb sl sr) v (d_sm o) (get k (d_rows o))
        && match getc k (d_conf o) with
           | None => negb c
           | Some (cb, co, ct) =>
-              c && orow_eqb cb (get k b) && orow_agree (merged_schema sb sl sr) v (d_sm o) co
+              c && orow_eqb cb (get k b) && orow_agree_v cls (merged_schema sb sl sr) v (d_sm o) co
               && orow_eqb ct (get k r)
           end)
      (all_keys b l r ++ keys (d_rows o) ++ map fst (d_conf o)).
 
-(* swapping the two sides: same conflicting keys, mirrored conflicts, same data elsewhere *)
+(* swapping the two sides: same conflicting keys, mirrored conflicts, same data elsewhere —
+   byte for byte (representations included) *)
 Definition swap_ok (sl sr : schema) (o1 o2 : dir_obs) : bool :=
   (d_class o1 =? 2) || (d_class o2 =? 2)
   || (same_cols (d_sm o1) (d_sm o2)
@@ -95,8 +103,8 @@ Definition swap_ok (sl sr : schema) (o1 o2 : dir_obs) : bool :=
          (keys (d_rows o1) ++ keys (d_rows o2) ++ map fst (d_conf o1) ++ map fst (d_conf o2))).
 
 Definition oracle (i : input) (o : obs) : bool :=
-  dir_ok (i_sb i) (i_sl i) (i_sr i) (i_b i) (i_l i) (i_r i) (o_lr o)
-  && dir_ok (i_sb i) (i_sr i) (i_sl i) (i_b i) (i_r i) (i_l i) (o_rl o)
+  dir_ok (clsf (i_cls i)) (i_sb i) (i_sl i) (i_sr i) (i_b i) (i_l i) (i_r i) (o_lr o)
+  && dir_ok (clsf (i_cls i)) (i_sb i) (i_sr i) (i_sl i) (i_b i) (i_r i) (i_l i) (o_rl o)
   && swap_ok (i_sl i) (i_sr i) (o_lr o) (o_rl o).
 
 Definition check_case (c : case) : N :=
